@@ -8,6 +8,7 @@ import (
 	"flag"
 	"fmt"
 	"os"
+	"runtime"
 	"sort"
 	"strings"
 	"sync"
@@ -127,6 +128,7 @@ type hbObs struct {
 	}
 	periods []time.Duration
 	mine    map[string]bool // channels of the streams started in this run (orphans of earlier runs of this process keep ticking)
+	maxCtr  uint64          // largest counter seen in earlier observation windows of this run (the counter never goes back)
 }
 
 func hbReplay(args []string) {
@@ -197,6 +199,11 @@ func runHb(topo *Topo, c HbCfg) HbLine {
 			obs.mine[fmt.Sprint(args[0])] = true
 			obs.periods = append(obs.periods, args[1].(time.Duration))
 			obs.mu.Unlock()
+			if args[1].(time.Duration) <= 0 {
+				// time.NewTicker would panic in a goroutine of the stack and take the process down: the period is
+				// recorded (and reported), this stream ends here
+				runtime.Goexit()
+			}
 		}
 		inner(point, args...)
 	})
@@ -289,7 +296,9 @@ func runHb(topo *Topo, c HbCfg) HbLine {
 	obs.mu.Unlock()
 	chans := map[string]int{}
 	line.CtrOk = true
-	var prev uint64
+	obs.mu.Lock()
+	prev := obs.maxCtr
+	obs.mu.Unlock()
 	for _, t := range ticks {
 		chans[t.ch]++
 		if t.ctr <= prev {
@@ -297,6 +306,11 @@ func runHb(topo *Topo, c HbCfg) HbLine {
 		}
 		prev = t.ctr
 	}
+	obs.mu.Lock()
+	if prev > obs.maxCtr {
+		obs.maxCtr = prev
+	}
+	obs.mu.Unlock()
 	// a stream is live if it refreshed at least twice in the window (one refresh may have been in flight when it was stopped)
 	for _, n := range chans {
 		if n >= 2 {
@@ -339,7 +353,9 @@ func hbObserve(obs *hbObs, p *Peer, hm interface{ IsHeartbeatRunning() bool }, s
 	obs.mu.Unlock()
 	chans := map[string]int{}
 	line.CtrOk = true
-	var prev uint64
+	obs.mu.Lock()
+	prev := obs.maxCtr
+	obs.mu.Unlock()
 	for _, t := range ticks {
 		chans[t.ch]++
 		if t.ctr <= prev {
@@ -347,6 +363,11 @@ func hbObserve(obs *hbObs, p *Peer, hm interface{ IsHeartbeatRunning() bool }, s
 		}
 		prev = t.ctr
 	}
+	obs.mu.Lock()
+	if prev > obs.maxCtr {
+		obs.maxCtr = prev
+	}
+	obs.mu.Unlock()
 	line.Live = 0
 	for _, n := range chans {
 		if n >= 2 {
@@ -385,6 +406,11 @@ func hbSetup(topo *Topo, timeout time.Duration) (s *System, p *Peer, obs *hbObs,
 			obs.mine[fmt.Sprint(args[0])] = true
 			obs.periods = append(obs.periods, args[1].(time.Duration))
 			obs.mu.Unlock()
+			if args[1].(time.Duration) <= 0 {
+				// time.NewTicker would panic in a goroutine of the stack and take the process down: the period is
+				// recorded (and reported), this stream ends here
+				runtime.Goexit()
+			}
 		}
 	})
 	ent = spine.NewEntityLocal(s.dev, model.EntityTypeTypeCEM, entAddr("5"), timeout)
